@@ -423,8 +423,9 @@ def fromGregorianStrIdx (sIn : List Nat) : Res Ep :=
     passed in so that this definition stays transparent. -/
 def numericEpoch (fmt : Nat) (ts : TS) (bits : Nat) (dur : TS → Dur) : Res Ep :=
   if fmt = 0 then
-    -- from_jde_et = from_jde_tdb = from_jde_tai(days) − 32.184935 s: the result is a TAI epoch
-    (if ts = .ET ∨ ts = .TDB then (if finiteBits bits = false then .panic else .ok ⟨dur ts, .TAI⟩)
+    -- from_jde_et / from_jde_tdb / from_jde_tai / from_jde_utc = from_jde_in_time_scale(days, ts) (since fix
+    -- "from_jde_et and from_jde_tdb count the Julian date in ET and TDB themselves")
+    (if ts = .ET ∨ ts = .TDB then (if finiteBits bits = false then .panic else .ok ⟨dur ts, ts⟩)
      else if ts = .TAI ∨ ts = .UTC then (if finiteBits bits = false then .panic else .ok ⟨dur ts, ts⟩)
      else .err)
   else if fmt = 1 then
@@ -474,12 +475,8 @@ def fMjdOffset : Float := Float.ofInt 4800001 / Float.ofInt 2
 /-- the duration of the epoch each initializer builds (`bits` finite) -/
 def numericDurF (fmt : Nat) (bits : Nat) (ts : TS) : Dur :=
   if fmt = 0 then
-    (if ts = .ET ∨ ts = .TDB then
-       -- from_jde_tai(days) − Unit::Microsecond * ET_OFFSET_US
-       Dur.sub (Dur.sub (Views.unitMulF Views.dayF (Float.ofBits (UInt64.ofNat bits) - fMjdJ1900 - fMjdOffset))
-         (Cal.gregorianEpochOffset .TAI)) (Dur.unitMulI64 Cal.NPUS Gen.ET_OFFSET_US)
-     else Dur.sub (Views.unitMulF Views.dayF (Float.ofBits (UInt64.ofNat bits) - fMjdJ1900 - fMjdOffset))
-         (Cal.gregorianEpochOffset ts))
+    Dur.sub (Views.unitMulF Views.dayF (Float.ofBits (UInt64.ofNat bits) - fMjdJ1900 - fMjdOffset))
+      (Cal.gregorianEpochOffset ts)
   else if fmt = 1 then
     Dur.sub (Views.unitMulF Views.dayF (Float.ofBits (UInt64.ofNat bits) - fMjdJ1900)) (Cal.gregorianEpochOffset ts)
   else Dyn.secondsDur (Float.ofBits (UInt64.ofNat bits))
